@@ -167,3 +167,47 @@ add("C20",
                                                            "            if self._simplifications is None:\n                built = []\n                simplifications = self._generate_simplifications(normalize=False)\n                for simplification in simplifications:\n                    pattern, replacement = list(simplification.items())[0]\n                    if not no_word_spacing:\n                        pattern = r\"(?<=\\A|\\W|_)%s(?=\\Z|\\W|_)\" % pattern\n                    pattern = re.compile(pattern, flags=re.I | re.U)\n                    built.append({pattern: replacement})\n                self._simplifications = built\n")], "silent",
       note="repaired twin for F7 (non-normalised list): build locally, publish once"),
     )
+
+# ---------------------------------------------------------------- C08
+add("C08",
+    V("first-day-is-2", "C08", [(UTILS, '    options = {\n        "first": 1,\n        "last": get_last_day_of_month', '    options = {\n        "first": 2,\n        "last": get_last_day_of_month')], "fire", "C08.R1"),
+    V("last-day-of-wrong-month", "C08", [(UTILS, '"last": get_last_day_of_month(date_obj.year, date_obj.month),', '"last": get_last_day_of_month(date_obj.year, datetime.now().month),')], "fire", "C08.R1"),
+    V("no-clamp-fallback", "C08", [(UTILS, '    try:\n        return date_obj.replace(day=options[settings.PREFER_DAY_OF_MONTH])\n    except ValueError:\n        return date_obj.replace(day=options["last"])',
+                                    '    return date_obj.replace(day=options[settings.PREFER_DAY_OF_MONTH])')], "fire", "C08.R1"),
+    V("last-month-is-11", "C08", [(UTILS, 'options = {"first": 1, "last": 12, "current"', 'options = {"first": 1, "last": 11, "current"')], "fire", "C08.R1"),
+    V("day-completion-ignores-day-token", "C08", [(PARSER, '        if (\n            getattr(self, "_token_day", None)\n            or getattr(self, "_token_weekday", None)', '        if (\n            getattr(self, "_token_weekday", None)')], "fire", "C08.R2"),
+    V("month-completion-always", "C08", [(PARSER, '        if getattr(self, "_token_month", None):\n            return dateobj\n\n        dateobj = set_correct_month_from_settings(', '        dateobj = set_correct_month_from_settings(')], "fire", "C08.R2"),
+    V("month-completion-only-without-year", "C08", [(PARSER, '        if getattr(self, "_token_month", None):\n            return dateobj\n', '        if getattr(self, "_token_month", None) or getattr(self, "_token_year", None):\n            return dateobj\n')], "fire", "C08.R2"),
+    V("year-shift-for-complete-dates", "C08", [(PARSER, "        if self.month and not self.year:\n            try:", "        if self.month:\n            try:")], "fire", "C08.R2"),
+    V("day-before-month", "C08", [(PARSER, "        dateobj = po._correct_for_month(dateobj)\n\n        # correction for preference of day: beginning, current, end\n        dateobj = po._correct_for_day(dateobj)", "        dateobj = po._correct_for_day(dateobj)\n\n        # correction for preference of day: beginning, current, end\n        dateobj = po._correct_for_month(dateobj)")], "fire", "C08.R1"),
+    V("day-of-year-not-a-month", "C08", [(UTILS, '"month": ["%b", "%B", "%m", "%-m", "%j", "%-j", "%c", "%x"],', '"month": ["%b", "%B", "%m", "%-m", "%c", "%x"],')], "fire", "C08.R3"),
+    V("period-month-before-day", "C08", [(PARSER, '        for period in ["time", "day"]:\n            if getattr(self, period, None):\n                return "day"\n\n        for period in ["month", "year"]:\n            if getattr(self, period, None):\n                return period\n',
+                                          '        for period in ["month", "year"]:\n            if getattr(self, period, None):\n                return period\n\n        for period in ["time", "day"]:\n            if getattr(self, period, None):\n                return "day"\n')], "fire", "C08.R4"),
+    V("twin-guard-rewritten", "C08", [(PARSER, '        if getattr(self, "_token_month", None):\n            return dateobj\n', '        if self._token_month:\n            return dateobj\n')], "silent"),
+    )
+
+# ---------------------------------------------------------------- C09
+add("C09",
+    V("past-shifts-forward", "C09", [(PARSER, "                if self.now < dateobj - tz_offset:\n                    dateobj = dateobj + timedelta(days=-1)", "                if self.now < dateobj - tz_offset:\n                    dateobj = dateobj + timedelta(days=1)")], "fire", "C09.R2"),
+    V("year-shift-under-current-period", "C09", [(PARSER, '                    if self.settings.PREFER_DATES_FROM == "past":\n                        dateobj = dateobj.replace(year=dateobj.year - 1)', '                    if self.settings.PREFER_DATES_FROM != "future":\n                        dateobj = dateobj.replace(year=dateobj.year - 1)')], "fire", "C09.R3"),
+    V("same-weekday-stays-under-past", "C09", [(PARSER, '                    if self.settings.PREFER_DATES_FROM == "past":\n                        steps = 7\n                    else:\n                        steps = 0', "                    steps = 0")], "fire", "C09.R4"),
+    V("same-weekday-week-under-current", "C09", [(PARSER, '                    if self.settings.PREFER_DATES_FROM == "past":\n                        steps = 7\n                    else:\n                        steps = 0', "                    steps = 7")], "fire", "C09.R4"),
+    V("time-comparison-inverted", "C09", [(PARSER, "                if self.now > dateobj - tz_offset:\n                    dateobj = dateobj + timedelta(days=1)", "                if self.now < dateobj - tz_offset:\n                    dateobj = dateobj + timedelta(days=1)")], "fire", "C09.R5"),
+    V("century-branches-swapped", "C09", [(PARSER, '                if "past" in self.settings.PREFER_DATES_FROM:\n                    dateobj = dateobj.replace(year=dateobj.year - 100)\n            else:\n                if "future" in self.settings.PREFER_DATES_FROM:\n                    dateobj = dateobj.replace(year=dateobj.year + 100)',
+                                           '                if "future" in self.settings.PREFER_DATES_FROM:\n                    dateobj = dateobj.replace(year=dateobj.year + 100)\n            else:\n                if "past" in self.settings.PREFER_DATES_FROM:\n                    dateobj = dateobj.replace(year=dateobj.year - 100)')], "fire", "C09.R5"),
+    V("day-completion-after-weekday-shift", "C09", [(PARSER, '            getattr(self, "_token_day", None)\n            or getattr(self, "_token_weekday", None)\n            or getattr(self, "_token_time", None)', '            getattr(self, "_token_day", None)\n            or getattr(self, "_token_time", None)')], "fire", "C09.R1"),
+    V("twin-repair-month-stage", "C09", [(PARSER, '        if getattr(self, "_token_month", None):\n            return dateobj\n', '        if (\n            getattr(self, "_token_month", None)\n            or getattr(self, "_token_weekday", None)\n            or (self._token_time and not self._token_year and not self._token_day)\n        ):\n            return dateobj\n')], "silent",
+      note="repaired twin of the known finding: no KNOWN-FINDING lines are required, only no new finding"),
+    )
+
+# ---------------------------------------------------------------- C10
+add("C10",
+    V("strict-changes-result", "C10", [(PARSER, '        dateobj = set_correct_day_from_settings(\n            dateobj, self.settings, current_day=self.now.day\n        )', '        if self.settings.STRICT_PARSING:\n            return dateobj.replace(day=1)\n        dateobj = set_correct_day_from_settings(\n            dateobj, self.settings, current_day=self.now.day\n        )')], "fire", "C10.R1"),
+    V("formats-bypass-filter", "C10", [(DATE, "            try:\n                _check_strict_parsing(missing_parts, settings)\n            except ValueError:\n                continue\n", "")], "fire", "C10.R2"),
+    V("results-filter-after-completion", "C10", [(PARSER, "        _check_strict_parsing(missing, self.settings)\n        self._set_relative_base()\n\n        time = self.time() if self.time is not None else None\n        params = self._get_datetime_obj_params()\n", "        self._set_relative_base()\n\n        time = self.time() if self.time is not None else None\n        params = self._get_datetime_obj_params()\n        if time:\n            _check_strict_parsing(missing, self.settings)\n")], "fire", "C10.R2"),
+    V("filter-gets-empty-list", "C10", [(PARSER, "        _check_strict_parsing(missing, self.settings)\n        self._set_relative_base()", "        _check_strict_parsing([], self.settings)\n        self._set_relative_base()")], "fire", "C10.R2"),
+    V("require-parts-ignored", "C10", [(PARSER, "            errors = [part for part in settings.REQUIRE_PARTS if part in missing]", "            errors = [part for part in settings.REQUIRE_PARTS if part in missing and part != \"day\"]")], "fire", "C10.R1"),
+    V("clock-day-unconditional", "C10", [(PARSER, '            "day": self.day or self.now.day,', '            "day": self.now.day if self.month is None else (self.day or self.now.day),')], "fire", "C10.R3"),
+    V("twin-filter-in-helper", "C10", [(PARSER, "        _check_strict_parsing(missing, self.settings)\n        self._set_relative_base()", "        self._strict(missing)\n        self._set_relative_base()"),
+                                       (PARSER, "    def _correct_for_time_frame(self, dateobj, tz):", "    def _strict(self, missing):\n        _check_strict_parsing(missing, self.settings)\n\n    def _correct_for_time_frame(self, dateobj, tz):")], "silent"),
+    )
